@@ -190,4 +190,9 @@ theorem merge_calls_ok :
                   "DB.reWriteData", "DataFile.ReadAt", "Entry.Size", "FileIORWManager.Close", "MMapRWManager.Close", "NewDataFile"] := by
   decide
 
+/-- the rewrite transaction of Merge touches the database only after its `db.Begin(true)`: no field of
+`*DB` is read or written, and no nutsdb function is called, at a point the call of `Begin` does not dominate
+(computed on the SSA of `reWriteData` by dominance) -/
+theorem rewrite_under_lock : rewriteUnlocked = [] := by decide
+
 end NutsProofs.Facts
